@@ -135,6 +135,34 @@ def run(ctx, only=None):
             got = "rejected by MPD's tokenizer" if t == "none" else "MPD sees " + repr([unhexs(x) for x in t.split(" ")[1:]])
             sent = unhexs(tok_cases[idx.index(i)].split(" ")[1])
             fails.append(Failure(cases[i], f"sent {sent!r} for {name!r} {args!r}: {got}", k))
+    # lists: every command of the list arrives as its own line, in order, between one opening and one closing line; each line
+    # read by MPD's tokenizer gives that command's name and arguments
+    ltok, lidx = [], []
+    for i, (c, out) in enumerate(zip(cases, impl)):
+        t = c.split(" ")
+        if t[0] != "cmd_list" or not out.startswith("len="):
+            continue
+        kv = dict(x.split("=", 1) for x in out.split(" ") if "=" in x)
+        data = unhexs(kv.get("bytes", ""))
+        cmds = [[unhexs(x) for x in spec.split(",")] for spec in t[2:]]
+        lines = data.split(b"\n")
+        n = len(cmds)
+        body = lines[:-1] if n == 1 else lines[1:-2]
+        framed = lines[-1] == b"" and (n == 1 or (lines[0] == b"command_list_ok_begin" and lines[-2] == b"command_list_end"))
+        if not framed or len(body) != n:
+            fails.append(Failure(c, f"a list of {n} commands built with {t[1]} was written as {data[:400]!r}: {len(body)} command lines"
+                                    f"{'' if framed else ', not framed by one command_list_ok_begin / command_list_end'}"))
+            continue
+        for j, (ln, cmd) in enumerate(zip(body, cmds)):
+            ltok.append("tokenize " + hexs(ln + b"\n"))
+            lidx.append((i, j, cmd, ln))
+    ltoks = ctx.run_model(ltok) if ctx.model_ok and ltok else []
+    for (i, j, cmd, ln), tk in zip(lidx, ltoks):
+        exp = " ".join(["some"] + [hexs(a) for a in cmd])
+        name, args = cmd[0].decode(errors="replace"), [a.decode(errors="replace") for a in cmd[1:]]
+        if tk != exp and klass(name, args) is None:
+            got = "rejected by MPD's tokenizer" if tk == "none" else "MPD sees " + repr([unhexs(x) for x in tk.split(" ")[1:]])
+            fails.append(Failure(cases[i], f"command #{j} of a list ({name!r} {args!r}) was sent as the line {ln[:200]!r}: {got}"))
     if only is not None:
         for c, o in zip(cases, impl):
             print("case :", c, "\nimpl :", o)
